@@ -403,6 +403,27 @@ Definition run_allowed_rows (args : list bytes) : bytes :=
   | _ => bs "badargs"
   end.
 
+
+(* ---------- the unconflicted state is re-applied last (v2 AND v2.1) ----------
+   [ver; universe; sets; auth; rejected; table; event JSONs; observable]: every event the
+   specification calls unconflicted is in the implementation's result *)
+Definition prop_unconflicted_kept (args : list bytes) : bytes :=
+  match args with
+  | [ver; u; sets; _; _; _; _; obs] =>
+      let un := decode_universe u in
+      let ss := parse_sets un sets in
+      if is_v1 ver then bs "ok"
+      else if negb (sets_are_lists_without_repeats ss) then bs "ok"
+      else
+        let unc := snd (spec_split false ss) in
+        let got := parse_ids obs in
+        match filter (fun e => negb (mem_bytes (e_id e) got)) unc with
+        | [] => bs "ok"
+        | l => bs "FAIL unconflicted events missing from the result: " ++ out_sorted l
+        end
+  | _ => bs "badargs"
+  end.
+
 Definition ops_C10 : list (bytes * (list bytes -> bytes)) :=
   [ (bs "C10.split", run_split);
     (bs "C10.authdiff_new", run_authdiff_new);
@@ -420,6 +441,7 @@ Definition ops_C10 : list (bytes * (list bytes -> bytes)) :=
     (bs "C10.prop.mainline_order", prop_mainline_order);
     (bs "C10.prop.v1", prop_v1);
     (bs "C10.prop.v1_old", prop_v1_old);
+    (bs "C10.prop.unconflicted_kept", prop_unconflicted_kept);
     (bs "C10.resolve_new_e2e", run_resolve_new_e2e);
     (bs "C10.resolve_old_e2e", run_resolve_old_e2e);
     (bs "C10.allowed_rows", run_allowed_rows) ].
